@@ -196,6 +196,24 @@ func HandleLsub(deps ServerDeps, conn net.Conn, tag string, parts []string, stat
 	// Apply reference and pattern matching to subscriptions
 	matches := utils.FilterMailboxes(subscriptions, reference, mailboxPattern)
 
+	// FilterMailboxes always offers INBOX when the pattern matches it, which is
+	// right for LIST; LSUB shows INBOX only if it is subscribed.
+	inboxSubscribed := false
+	for _, mailbox := range subscriptions {
+		if strings.EqualFold(mailbox, "INBOX") {
+			inboxSubscribed = true
+		}
+	}
+	if !inboxSubscribed {
+		subscribedMatches := matches[:0:0]
+		for _, mailbox := range matches {
+			if mailbox != "INBOX" {
+				subscribedMatches = append(subscribedMatches, mailbox)
+			}
+		}
+		matches = subscribedMatches
+	}
+
 	// RFC 3501 Special case: When using % wildcard, if "foo/bar" is subscribed
 	// but "foo" is not, we must return "foo" with \Noselect attribute
 	hierarchyDelimiter := "/"
